@@ -47,6 +47,9 @@ SPECS = {
         "probes": ["add_collision_refused", "move_duplicate_refused",
                    "remove_keep_children_collision_refused", "set_data_collision_refused"],
         "assumptions": ASSUME_COMMON,
+        "rebuild_mod": "simkit.peer",
+        "extra_blocks": [{"engine": "peer", "mod": "simkit.peer", "fn": "peer_block",
+                          "runs": {"quick": 300, "thorough": 20000}}],
     },
     "C04": {
         "driver": H, "level": "exploration",
@@ -82,6 +85,9 @@ SPECS = {
                 "successful mutations and a restart probe fired.",
         "probes": ["restart_file"],
         "assumptions": ASSUME_COMMON,
+        "rebuild_mod": "simkit.peer",
+        "extra_blocks": [{"engine": "peer", "mod": "simkit.peer", "fn": "peer_block",
+                          "runs": {"quick": 600, "thorough": 40000}}],
     },
     "C14": {
         "driver": H, "level": "exploration",
@@ -121,6 +127,43 @@ SPECS = {
                 "snapshot op and a snapshot was invoked while a writer was mid critical section "
                 "or blocked on the lock; distinct by digest of (schedule word, history).",
         "assumptions": [],
+    },
+    "C19": {
+        "driver": H, "level": "exploration",
+        "block_mod": "simkit.fsim", "block_fn": "fs_block", "rebuild_mod": "simkit.fsim",
+        "runs": {"quick": 300, "thorough": 10000},
+        "rule": "seeded directory trees (nesting <= 4, empty folders, sort-sensitive and unicode "
+                "names, sizes 0..10 kB, fractional mtimes) materialised in a scratch directory "
+                "and scanned with sort on/off under 4 seeded permutations of os.listdir / "
+                "os.scandir each; the tree must mirror the directory, sort=True must list files "
+                "then folders name-sorted and be independent of the enumeration order; save + "
+                "FileSystemTree.load preserves it. Non-trivial: >= 3 entries; distinct by digest "
+                "of the directory specification.",
+        "probes": [],
+        "assumptions": ["CPython 3.12 (Path.iterdir -> os.listdir); real file system for content, "
+                        "enumeration order decided by the simulator (os.listdir/os.scandir wrapped)",
+                        "name-sorted is accepted under plain str order or str.casefold order",
+                        "entries vanishing mid-scan, permission errors and symlinks are outside the property",
+                        "sampling: a clean batch is evidence, not proof"],
+    },
+    "C20": {
+        "driver": H, "level": "exploration",
+        "block_mod": "simkit.prng", "block_fn": "prng_block", "rebuild_mod": "simkit.prng",
+        "runs": {"quick": 1500, "thorough": 100000},
+        "rule": "seeded structure definitions (relation DAGs of 1-4 types, fixed and randomized "
+                "counts with and without probability, '*'/type/relation attribute merges, "
+                "{idx}/{hier_idx} macros, Range (int/float), DateRange (date / JS stamp), Value, "
+                "SparseBool and Sample (with counts) randomizers, alternative :factory) built for "
+                "Tree and TypedTree while nutree.tree_generator.random is a seeded SimRandom, in "
+                "60 % of the runs biased to range ends and to probability +-1e-12; structural "
+                "oracle independent of the order of PRNG calls. Non-trivial: >= 2 nodes built; "
+                "distinct by digest of (definition, class, mode).",
+        "probes": [],
+        "assumptions": ["the PRNG seen by nutree.tree_generator is the simulator's (module attribute rebound)",
+                        "TextRandomizer/BlindTextRandomizer (fabulist's own RNG) are not exercised",
+                        "integer ranges are accepted as [min, max] inclusive; {idx} is the 1-based "
+                        "index among the siblings created by the same relation",
+                        "sampling: a clean batch is evidence, not proof"],
     },
     "C07": {
         "driver": H, "level": "exploration",
@@ -175,6 +218,23 @@ _TB = ("Trusted: CPython 3.12, the reference model and contracts (simkit/model.p
        "argument classes the documentation leaves open are excluded (listed in the evidence file).")
 
 MANIFEST_TEXT = {
+    "C20": {"engine": "PrngSim", "design_ref": "DESIGN.md section 4 C20",
+            "technique": "deterministic simulation: the library's PRNG is the simulator's (seeded, boundary-biased SimRandom), structural conformance oracle",
+            "level_text": "Weaker fit (quantifier is inputs/configurations): the property is about "
+                          "every random draw; the simulator owns the random source and steers it "
+                          "to range ends and probability thresholds, which a single natural draw "
+                          "never shows.",
+            "level_note": "Trusted: the structural oracle in simkit/prng.py written from "
+                          "ug_randomize.rst and the Randomizer docstrings."},
+    "C19": {"engine": "FsSim", "design_ref": "DESIGN.md section 4 C19",
+            "technique": "deterministic simulation: directory enumeration order (os.listdir/os.scandir) and stat values decided by the simulator on a real scratch directory",
+            "level_text": "Weaker fit (quantifier is inputs/configurations): the one genuine source "
+                          "of nondeterminism the property depends on is the order in which the OS "
+                          "enumerates a directory; the simulator owns it and requires the sorted "
+                          "result to be the same under every permutation, plus mirror and "
+                          "save/load oracles.",
+            "level_note": "Trusted: CPython pathlib/os, the scratch file system. Enumeration "
+                          "order is permuted per directory from the seed."},
     "C05": {"engine": "StoreSim+HistorySim", "design_ref": "DESIGN.md section 4 C05",
             "technique": "deterministic simulation: restart fault (save, drop all live objects, load, continue) inside seeded histories under a swarm of storage options",
             "level_text": "The persistence boundary is a fault step of the history: only the "
